@@ -5,6 +5,7 @@ from __future__ import annotations
 import ast
 
 from sa.astutil import (
+    enclosing_tests,
     arg_or_kw,
     call_name,
     calls_in,
@@ -507,4 +508,27 @@ def r12_both_paths_start_from_a_private_copy(ctx):
     r1_fresh_copy_per_run(ctx)
 
 
-RULES = [r12_both_paths_start_from_a_private_copy, r11_task_results_fit_declared_types, r10_parallel_rows_read_their_own_columns, r9_files_attributed_one_to_one, r7_every_task_runs_its_own_pipeline, r8_evolved_algorithm_comes_back, r6_names_values_same_order, r1_sibling_run_space, r2_no_shared_state_in_task, r3_one_suffix_per_run, r4_task_independence, r5_island_order]
+def r13_swept_readout_reaches_both_paths(ctx):
+    """A swept `observation.readout.times` must reach the run on BOTH paths: the dask task and the sequential `_run_single_pipeline` each derive the run's readout from the run's parameters (`readout.replace(times=value)` under the key test, anything else under `observation.readout` refused) and hand THAT readout to run_pipeline - a path that passes the observation's own readout unchanged runs every combination with the same times."""
+    sites = {
+        "pyxel.observation.observation_dask:_run_pipelines_array_to_datatree": "dask",
+        "pyxel.observation.observation:Observation._run_single_pipeline": "sequential",
+    }
+    for q, label in sites.items():
+        f = ctx.func(q)
+        runs = stmt_calls(f, ctx.R, {"pyxel.exposure.exposure:run_pipeline"})
+        if len(runs) != 1:
+            raise AnalysisError(f"{q}: run_pipeline call not found")
+        ro = kw(runs[0], "readout")
+        name = dotted(ro) if ro is not None else None
+        defs = [v for _, v in local_defs(f, name)] if name and "." not in name else []
+        reps = [v for v in defs if isinstance(v, ast.Call) and isinstance(v.func, ast.Attribute) and v.func.attr == "replace" and kw(v, "times") is not None]
+        ok = bool(reps)
+        if ok:
+            st_ = [st for st, v in local_defs(f, name) if v is reps[0]][0]
+            ts = [(norm(expand(f, t)), pol) for t, pol in enclosing_tests(st_)]
+            ok = any(pol and "observation.readout" in t for t, pol in ts)
+        ctx.check(ok, f"{q}#readout-sweep", f"{label} path: the run's readout is derived from a swept observation.readout.times" if ok else f"{label} path: run_pipeline receives `{norm(ro) if ro is not None else None}`, which is never derived from the run's parameters: a swept `observation.readout.times` is ignored on this path (all combinations run with the same times) while the other path applies it", where=f, node=runs[0])
+
+
+RULES = [r13_swept_readout_reaches_both_paths, r12_both_paths_start_from_a_private_copy, r11_task_results_fit_declared_types, r10_parallel_rows_read_their_own_columns, r9_files_attributed_one_to_one, r7_every_task_runs_its_own_pipeline, r8_evolved_algorithm_comes_back, r6_names_values_same_order, r1_sibling_run_space, r2_no_shared_state_in_task, r3_one_suffix_per_run, r4_task_independence, r5_island_order]
